@@ -2,6 +2,7 @@ package vsched
 
 import (
 	"fmt"
+	"regexp"
 	"sort"
 	"strings"
 	"time"
@@ -76,7 +77,7 @@ type Explorer struct {
 	MaxViol  int
 	St       *Stats
 	stop     bool
-	sigSeen map[string]bool
+	sigSeen  map[string]bool
 	// SigSeen, if set, is shared between explorers of one job (dedup of violations by signature).
 	SigSeen map[string]bool
 	// Known, if set, tells which signatures are listed findings: they are recorded once and do not
@@ -218,7 +219,7 @@ func (e *Explorer) explore(prefix, prefixN []int, used map[string]int, total int
 			for k := 0; k < 5; k++ {
 				rr := e.Exec(choices, ns, false)
 				e.St.Replayed++
-				if rr.Violation != r.Violation {
+				if normViolation(rr.Violation) != normViolation(r.Violation) {
 					same = false
 					e.St.ToolErr = fmt.Sprintf("violation not reproducible on replay: first %q then %q (choices %v)", r.Violation, rr.Violation, trimZeros(choices))
 					break
@@ -380,3 +381,9 @@ func (st *Stats) OutcomeSummary(max int) []string {
 	}
 	return out
 }
+
+var goroutineNoRe = regexp.MustCompile(`goroutine \d+|0x[0-9a-f]+|\+0x[0-9a-f]+`)
+
+// normViolation removes what legitimately differs between two runs of the same schedule from a
+// violation text that quotes a stack trace of the product (goroutine numbers, addresses).
+func normViolation(s string) string { return goroutineNoRe.ReplaceAllString(s, "#") }
